@@ -105,6 +105,13 @@ def units(tier, seed):
             for icpt in (True, False):
                 block.append({"terms": [t1, t2], "icpt": icpt, "lv": lvb})
         u.append(block)
+    # a factor with a falsy level name ('' / 0)
+    block = []
+    tf = [list(p) for n_ in (1, 2) for p in itertools.permutations(["f", "g", "x"], n_)]
+    for fam in [[t] for t in tf] + [[t1, t2] for t1 in tf for t2 in tf if set(t1) != set(t2)]:
+        for icpt in (True, False):
+            block.append({"terms": fam, "icpt": icpt, "lv": {"f": ["", "fb", "fc"], "g": ["0", "g1"]}})
+    u.append(block)
     # the same transform on two different variables in one design
     block = []
     for a1, a2 in (("poly(x, 2)", "poly(z, 2)"), ("scale(x)", "scale(z)"), ("poly(x, 2)", "poly(z, 3)"), ("center(x)", "scale(z)")):
@@ -168,7 +175,7 @@ def prepare(tier, seed):
 
 
 def frame_for(lv, reps=2):
-    key = (tuple(sorted(lv.items())), reps)
+    key = (tuple(sorted((k, tuple(v) if isinstance(v, list) else v) for k, v in lv.items())), reps)
     if key not in _FRAMES:
         _FRAMES[key] = frames.factorial(lv, reps=reps, seed=_SEED)
     return _FRAMES[key]
@@ -272,7 +279,7 @@ def check_case(case, acc):
         acc.case(f, "wrong-span", sample=False)
         acc.violation("spans-model-space", "span", case, f"{f!r}: column space has dimension {rep['rank_x']}, model space {rep['rank_r']}, joint {rep['rank_both']}")
         return
-    acc.case(f, "ok", nontrivial=nontrivial(case))
+    acc.case([f, case["lv"], case.get("reps", 2), case.get("sub")], "ok", nontrivial=nontrivial(case))
 
 
 def classify(case, clause, sig, detail):
